@@ -561,6 +561,73 @@ def directed_overlap(ctx, rng, kind="add"):
     return c, v, None
 
 
+def directed_long_conflict(ctx, rng, kind="rem"):
+    """A leader change while a membership change is UNCOMMITTED, with a conflicting suffix on a follower that is LONGER
+    than the batch the new leader sends: old leader A appends [x, <kind> node] that reach F only; B (log shorter) is
+    elected by the others and sends just its no-op.  F deletes the whole suffix - the membership entry in it must be
+    taken back, however short the incoming batch is."""
+    c = Cluster(ctx, rng, 5)
+    sim = c.sim
+    A = sim.elect()
+    sim.run(4)
+    if A is None:
+        return c, [], "no leader"
+    others = [i for i in sim.voters if i != A]
+    F, rest = others[0], others[1:]
+    node = "e9" if kind == "add" else rest[-1]
+    # A is cut off from everybody but F (silently: it keeps believing), appends a regular entry and the change
+    for j in rest:
+        sim.cut(A, j)
+    sim.submit(A, "x1")
+    c.request(A, kind, node)
+    for _ in range(3):
+        sim.tick(A, 0.0625)
+        while sim.deliver(A, F):
+            pass
+        sim.tick(F, 0.0)
+        while sim.deliver(F, A):
+            pass
+    held = sim.log_of(F)
+    if not any(cmd[:1] == b"\x02" for (_, _, cmd) in held):
+        return c, c.viols, "membership entry did not reach the follower"
+    c.check("uncommitted %s %s on %s and %s" % (kind, node, A, F))
+    # A and F lose each other; the other three elect a leader whose log is shorter than F's
+    sim.disconnect(A, F)
+    for j in rest:
+        sim.notice(j, A)
+    c.isolated.add(A)
+    c.isolated.add(F)
+    B = None
+    for _ in range(200):
+        sim.run(1, among=rest)
+        B = sim.leader(rest)
+        if B is not None:
+            break
+    if B is None:
+        return c, c.viols, "no second leader"
+    before = len(held)
+    # F comes back: B's first message to it carries few entries (its no-op), F's conflicting suffix is longer
+    c.isolated.discard(F)
+    for j in rest:
+        sim.connect(F, j)
+    for _ in range(16):
+        sim.run(1, among=rest + [F])
+        c.check("catch-up of %s under %s after the uncommitted %s %s" % (F, B, kind, node))
+        if c.viols:
+            break
+    c.cov["long-conflict-truncated"] += 1
+    mem = c.members(F)
+    bad = (node not in mem) if kind == "rem" else (node in mem)
+    if bad and not c.viols:
+        c.viols.append({"signature": SIG_FOLD,
+                        "what": "follower %s deleted the uncommitted '%s %s' (suffix of %d entries, longer than the batch of leader %s) "
+                                "but its member set is %s" % (F, kind, node, before - 1, B, sorted(mem))})
+    v = c.viols + monitors.sm_safety(sim)
+    for e in sim.errors:
+        v.append({"signature": "exception-escaped:%s" % e[1], "what": "node %s: %s %s" % (e[0], e[1], e[2][:100])})
+    return c, v, None
+
+
 def directed_add_with_backlog(ctx, rng, n0=3):
     """`add` accepted while the leader holds uncommitted entries and cannot reach the other voter: the new, empty node
     must not count for those entries."""
@@ -649,6 +716,13 @@ def run(ctx):
         for x in v:
             x.setdefault("replay", {"directed": "overlap", "kind": kind, "seed": ctx.seed, "trace": c.sim.trace[-30:]})
         viols += v
+    for kind in ("rem", "add"):
+        c, v, note = directed_long_conflict(ctx, rng, kind)
+        n += 1
+        cov.update(c.cov)
+        for x in v:
+            x.setdefault("replay", {"directed": "long_conflict", "kind": kind, "seed": ctx.seed, "trace": c.sim.trace[-30:]})
+        viols += v
     for k in range(runs):
         if time.time() > end or [x for x in viols if x["signature"] != SIG_D6]:
             break
@@ -673,8 +747,19 @@ def run(ctx):
     need = ["request:add", "request:rem", "callback:6", "callback:0", "back-to-back", "isolate-leader", "start-node",
             "isolate-follower", "compacted-log", "fold-base:committed-prefix", "agreement:compared",
             "caught-up-by-snapshot", "overlap-resend", "add-with-backlog", "commit-advance-checked",
-            "learned-removal-by-snapshot"]
+            "learned-removal-by-snapshot", "long-conflict-truncated"]
     missing = [k for k in need if cov[k] == 0]
     if missing and not out:
         res["inconclusive"] = "coverage floor missed: " + ", ".join(missing)
     return res
+
+
+def replay(ctx, violation):
+    """The component is deterministic in VERIF_SEED (one PRNG): the recorded violation is reproduced by running the same
+    plan again and looking for the same signature."""
+    rp = violation.get("replay", {})
+    if "seed" in rp:
+        ctx.seed = rp["seed"]
+    r = run(ctx)
+    same = [v for v in r["violations"] if v["signature"] == violation.get("signature")]
+    return {"violated": bool(same), "violations": (same or r["violations"])[:3], "replayed": rp.get("directed", "run %s" % rp.get("run"))}
